@@ -248,6 +248,28 @@ func impure(p *Path) []*Event {
 func pathTrace(ev *Evaluator, p *Path) string { return ev.DumpPath(p, false) }
 
 // fieldTermName: for init(faddr(_, T.f)) returns f.
+// sameUnder: the two terms are the same value on this path: identical, or equal by the path's facts.
+func sameUnder(ev *Evaluator, F *Facts, a, b *T) bool {
+	if a == b {
+		return true
+	}
+	if a == nil || b == nil {
+		return false
+	}
+	return F.Truth(ev.TS, ev.TS.Cmp("==", a, b)) == triT
+}
+
+// rootedAt: addr is the address of a field of *base, directly or through structs base embeds by value.
+func rootedAt(addr, base *T) bool {
+	for i := 0; addr != nil && addr.Op == "faddr" && i < 4; i++ {
+		if addr.Args[0] == base {
+			return true
+		}
+		addr = addr.Args[0]
+	}
+	return false
+}
+
 func loadedField(t *T) string {
 	if t != nil && t.Op == "init" && t.Args[0].Op == "faddr" {
 		return FieldName(t.Args[0].Aux)
@@ -265,6 +287,6 @@ func sortedKeys[V any](m map[string]V) []string {
 }
 
 // constructOf names a function-level construct.
-func (c *Ctx) fn(f *ssa.Function) string { return c.P.FuncName(f) }
+func (c *Ctx) fn(f *ssa.Function) string { return c.P.CanonFuncName(f) }
 
 // lockDiscipline is defined in rules_locks.go
